@@ -472,7 +472,7 @@ def v3_plists(f):
 
 
 def line_enc_v3(f):
-    th = ','.join('%d:%d:%s' % (t[0], t[1], t[2]) for t in f['threads']) or '-'
+    th = ','.join('%d:%d:%s' % (t[0], t[1], t[2]) + (':' + t[3] if len(t) > 3 else '') for t in f['threads']) or '-'
     ch = ';'.join('%s/%d/%s/%s' % (c['gap'] or '-', c['extra'], c['unk'] or '-', ''.join(c['recs']) or '-') for c in f['chunks'])
     bl = ';'.join('%s/%s/%s' % (b['tag'], b['payload'] or '-', 'p' if b['padded'] else 'u') for b in f['blocks']) or '-'
     return 'encv3 %s %s %s %s %s %s %s %s %s' % (','.join(map(str, f['hdr'])), f['cpu'], f['four'], f['filler'] or '-',
